@@ -53,6 +53,17 @@ impl Default for Hs5 {
     }
 }
 
+/// values the handshake service writes into the CONNACK through `HandshakeAck::with` (None = left as computed)
+#[derive(Clone, Copy, Debug, Default, PartialEq, Eq, Hash, serde::Serialize, serde::Deserialize)]
+pub struct Override5 {
+    pub max_qos: Option<u8>,
+    pub receive_max: Option<u16>,
+    pub topic_alias_max: Option<u16>,
+    /// Some(0) = no Maximum Packet Size property
+    pub max_packet_size: Option<u32>,
+    pub session_expiry: Option<u32>,
+}
+
 #[derive(Clone, Debug, PartialEq, serde::Serialize, serde::Deserialize)]
 pub struct Cfg5 {
     pub max_qos: u8,
@@ -81,6 +92,9 @@ pub struct Cfg5 {
     pub no_retain: bool,
     #[serde(default)]
     pub no_sub_ids: bool,
+    /// server: the handshake service rewrites CONNACK fields
+    #[serde(default)]
+    pub hs_with: Option<Override5>,
     pub connect: s5::Connect5,
     /// client role: CONNACK the scripted server answers with
     pub connack: s5::ConnAck5,
@@ -105,6 +119,7 @@ impl Default for Cfg5 {
             hs: Hs5::default(),
             no_retain: false,
             no_sub_ids: false,
+            hs_with: None,
             connect: s5::Connect5 { client_id: "cid".into(), clean_start: true, ..Default::default() },
             connack: s5::ConnAck5::default(),
         }
@@ -375,6 +390,7 @@ pub async fn server_pipeline(
 ) -> SrvPipeline {
     let hs = cfg.hs.clone();
     let (no_retain, no_sub_ids) = (cfg.no_retain, cfg.no_sub_ids);
+    let hs_with = cfg.hs_with;
     let app_h = app.clone();
     let handshake = move |h: v5::Handshake| {
         let hs = hs.clone();
@@ -401,6 +417,25 @@ pub async fn server_pipeline(
                         ack = ack.with(|a| {
                             a.retain_available = !no_retain;
                             a.subscription_identifiers_available = !no_sub_ids;
+                        });
+                    }
+                    if let Some(o) = hs_with {
+                        ack = ack.with(|a| {
+                            if let Some(q) = o.max_qos {
+                                a.max_qos = conv::qos(q);
+                            }
+                            if let Some(r) = o.receive_max.and_then(NonZeroU16::new) {
+                                a.receive_max = r;
+                            }
+                            if let Some(t) = o.topic_alias_max {
+                                a.topic_alias_max = t;
+                            }
+                            if let Some(m) = o.max_packet_size {
+                                a.max_packet_size = (m != 0).then_some(m);
+                            }
+                            if let Some(e) = o.session_expiry {
+                                a.session_expiry_interval_secs = Some(e);
+                            }
                         });
                     }
                     Ok::<_, AppErr>(ack)
